@@ -11,7 +11,15 @@ open Map
 `Update`. (The repairs 64c1acb `removeImplicitClasses` and 702b167 `dropReopenedWindow` may or may
 not be applied: the hypotheses adapt.) The new backend has no such switch. -/
 def Cfg.asFound (cfg : Cfg) : Prop :=
-  0 < cfg.window ∧ (cfg.legacy = true → cfg.zeroWriteFix = true ∧ cfg.legacyPurgeOnUpdate = false)
+  0 < cfg.window ∧
+    (cfg.legacy = true → cfg.zeroWriteFix = true ∧ cfg.legacyPurgeOnUpdate = false ∧ cfg.legacyDedupDeclared = true)
+
+/-- Under `asFound` both backends tolerate a class hash listed twice among the declared classes (legacy since 7460746). -/
+theorem Cfg.asFound.dupTolerant {cfg : Cfg} (hc : cfg.asFound) : cfg.dupTolerant = true := by
+  unfold Cfg.dupTolerant
+  cases hl : cfg.legacy with
+  | false => rfl
+  | true => simp [(hc.2 hl).2.2]
 
 /-- Everything the one-step theorem needs: the per-block buckets' invariant, the freshness facts,
 the CASM and filter facts, and that `State.Revert` undoes `State.Update` for this block (proved from
